@@ -1505,10 +1505,24 @@ class _DynamicallyDefineDataIdentifierResponse(
         return cls(dynamically_defined_data_identifier)
 
     def matches(self, request: UDSRequest) -> bool:
-        return (
+        if not (
             isinstance(request, _DynamicallyDefineDataIdentifierRequest)
             and self.sub_function == request.sub_function
-        )
+        ):
+            return False
+
+        # The dynamicallyDefinedDataIdentifier is echoed as well; it is optional for
+        # clearDynamicallyDefinedDataIdentifier, so it is compared when both sides carry one.
+        if (
+            self.dynamically_defined_data_identifier is not None
+            and request.dynamically_defined_data_identifier is not None
+        ):
+            return (
+                self.dynamically_defined_data_identifier
+                == request.dynamically_defined_data_identifier
+            )
+
+        return True
 
 
 class _DynamicallyDefineDataIdentifierRequest(
